@@ -43,6 +43,11 @@ def place(rng, body_lines, def_line, where):
         return def_line + "\n\n" + "\n".join(body_lines) + "\n"
     if where == "bottom":
         return "\n".join(body_lines) + "\n\n" + def_line + "\n"
+    if where == "top-tight":
+        # the definition directly followed (no blank line) by another line: a definition ends at its line end (or after its title)
+        follower = rng.choice(["plain words", " one blank", "  two blanks", "   three blanks", "    four blanks", "\tafter a tab", "   [other]: /o", "[other]: /o 't'", "> quote", "- item",
+                               "  - item", "# head", "   # head", "```\ncode\n```", " \\", "  *em*", "   \"not a title", "   'open", " <b>", "   (x)"])
+        return def_line + "\n" + follower + "\n\n" + "\n".join(body_lines) + "\n"
     # white space between a container marker and the definition: anything below four columns of indentation
     if where == "quote":
         return "\n".join(body_lines) + "\n\n> quoted\n>\n>" + rng.choice([" ", " ", "\t", "", "  ", "   ", " \t"]) + def_line + "\n"
@@ -60,7 +65,7 @@ def place(rng, body_lines, def_line, where):
     raise ValueError(where)
 
 
-PLACES = ["top", "bottom", "quote", "list", "quote-in-list", "middle", "deep-quote", "deep-list", "deep-mixed", "deep-mixed2"]
+PLACES = ["top", "bottom", "top-tight", "quote", "list", "quote-in-list", "middle", "deep-quote", "deep-list", "deep-mixed", "deep-mixed2"]
 
 
 def metamorphic(ctx, n_cases):
@@ -80,7 +85,9 @@ def metamorphic(ctx, n_cases):
             v = variant(ctx.rng, label).replace("\n", " ")
             form = ctx.rng.choice(["[%s]", "[text][%s]", "[%s][]", "![img][%s]", "*em [%s] em*", "> quoted [%s]", "- li [%s]", "# h [%s]",
                                    # a reference followed by brackets that open no label, and references next to raw inline HTML (other than <a>)
-                                   "[%s][ rest", "[%s][unclosed *x*", "[%s][[x]] y", "<abbr>[%s]</abbr>", "<audio> [%s] z", "x <area> [%s]", "<b>[%s]</b> <aside>", "see [%s]`::new()` x", "![%s]`c`", "[%s]*em*", "[%s]<b>", "[%s]&amp;", "[%s]\\"]
+                                   "[%s][ rest", "[%s][unclosed *x*", "[%s][[x]] y", "<abbr>[%s]</abbr>", "<audio> [%s] z", "x <area> [%s]", "<b>[%s]</b> <aside>", "see [%s]`::new()` x", "![%s]`c`", "[%s]*em*", "[%s]<b>", "[%s]&amp;", "[%s]\\",
+                                   # a reference right after an escaped backslash, other escapes, punctuation and delimiter runs
+                                   "a \\\\[%s] b", "a\\\\\\\\[%s]", "\\\\![img][%s]", "\\*[%s]", "([%s])", "'[%s]'", ":[%s]:", "*[%s]*", "**[%s]**", "_[%s]_", "x][%s]", "&amp;[%s]", "`c`[%s]", "<b>[%s]", "a\\\\[text][%s]"]
                                   + (["note here[^n1]\n\n[^n1]: inside the note [%s] end", "| head |\n|------|\n| cell [%s] |", "term\n: definition [%s]", "- [ ] task [%s]", "~~del [%s]~~"] * 2 if plug else []))
             uses.append((form % v).replace("n1", "n%d" % (len(uses) + 1)))      # (footnote keys distinct per use)
         body = []
